@@ -136,3 +136,7 @@ DIV_GUARDS = Ob("C20-N1", "R-ORDER", "every mean division by a covered-base coun
 BIN_SIBS = Ob("C20-S1", "R-SIB", "bin routines: bins/zoom siblings share bookkeeping; in-loop and final flush blocks identical", PA.ob_bin_siblings, floor=2)
 DRIVERS = Ob("C20-F2", "R-FLOW", "drivers: clamped query range, oob bins after data fill, bigWig/bigBed drivers identical", PA.ob_drivers, floor=3)
 PER_BASE = Ob("C20-A1", "R-STAT", "per-base routines: NaN-seeded, value / +1 per covering entry, NaN -> missing", PA.ob_per_base, floor=2)
+
+from ..obs import zoomlist as ZL
+ZOOM_LIST = Ob("C07-Z1", "R-SIB", "zoom size list normalised (zero-free, sorted, duplicate-free, <= MAX_ZOOM_LEVELS) before any per-level state in both pass modes; headers pushed in that order", ZL.ob_zoom_list, floor=6)
+CONTRADICTION = Ob("C02-X1", "R-PRED", "contradiction rule: no record the bigBed writer accepts is refused by the block decoder", PR.ob_reader_writer_contradiction)
